@@ -56,6 +56,11 @@ def make_example(kind, i):
         return np.arange(4, dtype=np.int64) + 10 * i
     if kind == 'bigarray':
         return np.arange(BIG, dtype=np.float64) + i  # a top-level array of exactly 1 MiB
+    if kind == 'str':
+        return f'utt{i}'  # every example is a plain str (a list of file names)
+    if kind == 'npvoid':
+        # a numpy structured scalar: looks like a scalar, is mutable in place
+        return np.array([(i, i + 0.5)], dtype=[('a', 'i4'), ('b', 'f4')])[0]
     if kind == 'unpicklable':
         return {'id': i, 'tags': [i, i + 1], 'fn': (lambda: i)}  # cannot be pickled: a cache may refuse it, not leak it
     if kind == 'objarray':
@@ -69,6 +74,8 @@ def make_example(kind, i):
 
 
 def deq(a, b):
+    if isinstance(a, np.void) or isinstance(b, np.void):
+        return type(a) is type(b) and a.dtype == b.dtype and a.tolist() == b.tolist()
     if isinstance(a, np.ndarray) or isinstance(b, np.ndarray):
         return isinstance(a, np.ndarray) and isinstance(b, np.ndarray) and a.dtype == b.dtype and a.shape == b.shape \
             and bool(np.array_equal(a, b))
@@ -88,6 +95,10 @@ def mutate(obj, kind):
     """Mutate an example (or an (key, example) pair) in place. Returns True if something was changed."""
     if isinstance(obj, tuple) and len(obj) == 2 and isinstance(obj[0], str):
         obj = obj[1]  # items() pair
+    if isinstance(obj, np.void):
+        obj['a'] = -99
+        obj['b'] = 0.25
+        return True
     if isinstance(obj, (TaggedStr, TaggedFloat)):
         if kind in ('del', 'clear'):
             obj.meta.clear()
@@ -380,7 +391,8 @@ def st_case(draw):
         else:
             steps.append(['read', draw(st.sampled_from(READS)), draw(st.integers(0, 7)),
                           draw(st.sampled_from(MUTS + [None]))])
-    payloads = ['dict', 'dict', 'dict', 'tuple', 'tuple', 'array', 'objarray', 'bigarray', 'attr_scalar']
+    payloads = ['dict', 'dict', 'dict', 'tuple', 'tuple', 'array', 'objarray', 'bigarray', 'attr_scalar', 'str',
+                'npvoid']
     if storage in ('cache', 'new_copy'):
         payloads += ['unpicklable', 'unpicklable']
     return {'storage': storage, 'container': container, 'payload': draw(st.sampled_from(payloads)),
@@ -401,4 +413,24 @@ def run_shard(tier, idx, nshards, rec, known):
         if any(s[0] == 'mutate_original' for s in case['steps']):
             cls.append('mutate-original')
         rec.case(case, crossings >= 1, cls, size=len(case['steps']))
+    if idx == 0:
+        # enumerated first: for every serialising storage x container x payload kind, the ORIGINAL container is
+        # changed after construction (an entry replaced, an example edited in place, the list extended)
+        from ..common import Outcome
+        o0 = Outcome()
+        for storage in ('new_pickle', 'wu'):
+            for container in (('list',) if storage == 'wu' else ('list', 'dict')):
+                for payload in ('dict', 'tuple', 'array', 'objarray', 'attr_scalar', 'str', 'npvoid'):
+                    for first in (None, ['read', 'idx', 0, None], ['read', 'iter', 0, None]):
+                        steps = ([first] if first else []) + [['mutate_original', 0, 'replace'],
+                                                             ['mutate_original', 1, 'set'],
+                                                             ['mutate_original', 2, 'extend'], ['scan']]
+                        case = {'storage': storage, 'container': container, 'payload': payload, 'n': 3, 'steps': steps}
+                        try:
+                            one(case)
+                        except Violation as v:
+                            if known.match(v.sig):
+                                continue
+                            o0.violation = (case, v.sig, v.detail)
+                            return [o0]
     return [drive(one, st_case(), N[tier], rec, known, seed() * 1000 + idx)]
